@@ -141,11 +141,16 @@ def render_type(t, indent='    '):
         attrs.append({'a': name, 'toks': toks, 'text': indent + "#[%s(%s)]" % (name, ', '.join(a for _, a in args))})
     order = t.get('attr_order') or list(range(len(attrs)))
     descr = []
+    body = []
     for i in order:
-        L.append(attrs[i]['text'])
+        body.append(attrs[i]['text'])
         descr.append({'a': attrs[i]['a'], 'toks': attrs[i]['toks']})
     if t.get('doc'):
-        L.append(indent + "/// " + t['doc'])
+        # the documentation comment may stand anywhere among the unit attributes (default: after them)
+        pos = t.get('doc_pos')
+        pos = len(body) if pos is None else max(0, min(len(body), pos))
+        body.insert(pos, indent + "/// " + t['doc'])
+    L.extend(body)
     L.append(indent + "pub struct %s {}" % rname)
     return L, descr
 
